@@ -38,7 +38,8 @@ type toggler struct {
 }
 
 func newToggler() *toggler {
-	l, err := net.Listen("tcp", "127.0.0.1:0")
+	// a port of its own for the whole run (an OS-chosen port would be handed out again while this backend is switched off)
+	l, err := net.Listen("tcp", fmt.Sprintf("127.0.0.1:%d", tnPort()))
 	if err != nil {
 		panic(err)
 	}
